@@ -55,6 +55,18 @@ def _get_post(c):
 
 c.ensures('one-item-less', _get_post)
 
+c = contract('Queue.full', None, kind='env').param('self').returns('bool')
+c.assumed = ['E5: asyncio.Queue.full() / empty() / qsize() read the queue and change nothing']
+c.ensures('full-iff-maxsize-reached', lambda c: c.result == And(
+    c.cur.f('$qmax', c.a.self) > 0, c.cur.g['$others'] + c.cur.g['$contrib'] >= c.cur.f('$qmax', c.a.self))
+    if '$contrib' in c.cur.g else z3.BoolVal(True))
+
+c = contract('asyncio.sleep', None, kind='env').param('delay', 'any').returns('none')
+c.is_async = True
+c.suspends = True
+c.may_cancel = True
+c.assumed = ['E: asyncio.sleep suspends (also for a zero delay) and raises only CancelledError']
+
 # ---------------------------------------------------------------- E9: body of an atomic job (assumed)
 c = contract('AbstractJob.co_run', None, kind='env').param('self').returns('ref')
 c.is_async = True
@@ -74,6 +86,7 @@ def _body_post(c):
     if '$bodycalls' in st.g:
         st.g['$bodycalls'] = st.g['$bodycalls'] + 1
     st.g['$body-value'] = c.result
+    st.g['$body-finished'] = z3.BoolVal(True)
     return z3.BoolVal(True)
 
 
@@ -82,6 +95,7 @@ def _body_raise(c):
     if '$bodycalls' in st.g:
         st.g['$bodycalls'] = st.g['$bodycalls'] + 1
     st.g['$body-exc'] = c.exc
+    st.g['$body-finished'] = z3.BoolVal(True)
     return z3.BoolVal(True)
 
 
@@ -133,6 +147,7 @@ def _wrapped_ghost_init(st):
     # calling it cannot meet `returns-what-the-body-returned`)
     st.g['$body-value'] = fresh('nobodyvalue', L.Ref)
     st.g['$body-exc'] = fresh('nobodyexc', L.Ref)
+    st.g['$body-finished'] = z3.BoolVal(False)
     st.assume(st.g['$others'] >= 0)
 
 
@@ -167,6 +182,10 @@ c.ensures('finished-implies-running', lambda c: c.cur.f('_running', c.a.job), pr
 # nor asks for one it does not hold (which would block on the empty queue)
 c.raises('CancelledError', 'slot-given-back', lambda c: c.cur.g['$contrib'] == 0,
          props=['C07', 'C03', 'C12', 'C05', 'C08', 'C09', 'C11'])
+# C14: a body that returned or raised is never reported cancelled: once the body is over the wrapper does not
+# suspend again (giving the slot back takes an item this activation put itself: Queue.get does not block)
+c.raises('CancelledError', 'never-after-the-body-has-finished', lambda c: Not(c.cur.g['$body-finished']),
+         props=['C14', 'C02', 'C06'])
 c.raises('CancelledError', 'body-ran-at-most-once', lambda c: c.cur.g['$bodycalls'] <= 1, props=['C02'])
 c.raises('CancelledError', 'not-running-if-cancelled-while-queued', lambda c: Implies(
     c.cur.g['$bodycalls'] == 0, c.cur.f('_running', c.a.job) == c.pre.f('_running', c.a.job)), props=['C14'])
